@@ -54,7 +54,7 @@ type c08Result struct {
 	label    string
 }
 
-func c08Scenario(getter bool, maxRe int, unexpired bool, atts []att) (res c08Result) {
+func c08Scenario(getter bool, maxRe int, unexpired bool, atts []att, garbageLoss bool) (res c08Result) {
 	addv := func(what, cs string) { res.viols = append(res.viols, Violation{What: what, Case: cs}) }
 	peer := newTCPPeer()
 	defer peer.shutdown()
@@ -130,7 +130,11 @@ func c08Scenario(getter bool, maxRe int, unexpired bool, atts []att) (res c08Res
 		setListen(atts[0].dialOK)
 	}
 	failed := tc.log.count("reconnect failed")
-	pc0.close() // the loss
+	if garbageLoss {
+		pc0.send([]byte{0x00}) // an undecodable frame (type nibble 0); the peer keeps the connection open
+	} else {
+		pc0.close() // the loss
+	}
 	result := "trying"
 	for i, a := range atts {
 		okBefore := tc.log.count("reconnect success")
@@ -147,10 +151,21 @@ func c08Scenario(getter bool, maxRe int, unexpired bool, atts []att) (res c08Res
 			conns = append(conns, pc)
 			gen := len(conns)
 			ans := append([]string(nil), a.answers...)
+			checkedOld := false
 			for {
 				f := pc.readFrame(600 * time.Millisecond)
 				if f == nil {
 					break
+				}
+				if !checkedOld {
+					// the client is already talking on the new connection: every older one must be closed by now
+					checkedOld = true
+					for oi, oc := range conns[:len(conns)-1] {
+						if !oc.closed && !oc.peerClosed(400*time.Millisecond) {
+							addv(fmt.Sprintf("connection %d is still open while the client already sends on connection %d (never two connections at once)", oi+1, gen), cs)
+						}
+						oc.closed = true
+					}
 				}
 				switch f.Cmd {
 				case 3:
@@ -278,27 +293,29 @@ func runC08(r *Run) {
 		max       int
 		unexpired bool
 		atts      []att
+		garbage   bool
 	}
 	A := func(ok bool, ans ...string) att { return att{ok, ans} }
 	scs := []sc{
-		{true, 0, true, []att{A(true, "k9")}},                                   // resume
-		{true, 0, false, []att{A(true, "k9")}},                                  // expired: AUTH
-		{true, 0, true, []att{A(true, "u", "k9")}},                              // unauthenticated -> AUTH on the same connection
-		{true, 0, true, []att{A(false), A(true, "k9")}},                         // refused, then resume
-		{true, 3, true, []att{A(true, "o"), A(true, "d"), A(true, "k9")}},       // error status, dropped, success within budget
-		{true, 2, true, []att{A(false), A(true, "s")}},                          // budget spent: give up
-		{false, 0, true, []att{A(true)}},                                        // no auth at all
-		{false, 2, true, []att{A(false), A(false)}},                             // give up without auth
-		{true, 1, true, []att{A(true, "u", "o")}},                               // fallback fails, budget 1: give up
-		{true, 0, true, []att{A(true, "s"), A(true, "k11")}},                    // silence then success
+		{true, 0, true, []att{A(true, "k9")}, false},                             // resume
+		{true, 0, true, []att{A(true, "k9")}, true},                              // loss by an undecodable frame, peer keeps the old connection open
+		{true, 0, false, []att{A(true, "k9")}, false},                            // expired: AUTH
+		{true, 0, true, []att{A(true, "u", "k9")}, false},                        // unauthenticated -> AUTH on the same connection
+		{true, 0, true, []att{A(false), A(true, "k9")}, false},                   // refused, then resume
+		{true, 3, true, []att{A(true, "o"), A(true, "d"), A(true, "k9")}, false}, // error status, dropped, success within budget
+		{true, 2, true, []att{A(false), A(true, "s")}, false},                    // budget spent: give up
+		{false, 0, true, []att{A(true)}, false},                                  // no auth at all
+		{false, 2, true, []att{A(false), A(false)}, false},                       // give up without auth
+		{true, 1, true, []att{A(true, "u", "o")}, false},                         // fallback fails, budget 1: give up
+		{true, 0, true, []att{A(true, "s"), A(true, "k11")}, false},              // silence then success
 	}
 	if r.thorough() {
 		for _, g := range []bool{true, false} {
 			for _, un := range []bool{true, false} {
 				for mx := 0; mx <= 3; mx++ {
 					for _, first := range []att{A(false), A(true, "d"), A(true, "u", "k5"), A(true, "o"), A(true, "s"), A(true, "k5")} {
-						scs = append(scs, sc{g, mx, un, []att{first, A(true, "k6")}})
-						scs = append(scs, sc{g, mx, un, []att{first, first, A(true, "k6")}})
+						scs = append(scs, sc{g, mx, un, []att{first, A(true, "k6")}, mx%2 == 1})
+						scs = append(scs, sc{g, mx, un, []att{first, first, A(true, "k6")}, false})
 					}
 				}
 			}
@@ -313,7 +330,7 @@ func runC08(r *Run) {
 			defer wg.Done()
 			sem <- struct{}{}
 			defer func() { <-sem }()
-			results[i] = c08Scenario(s.getter, s.max, s.unexpired, s.atts)
+			results[i] = c08Scenario(s.getter, s.max, s.unexpired, s.atts, s.garbage)
 		}(i, s)
 	}
 	wg.Wait()
